@@ -102,10 +102,10 @@ def run_case(sh, fx, d, case):
 	args = ['-d', fx.dbdir, 'dist', '--no-progress', '-o', out]
 	pname = 'DEF'
 	if kp == 'explicit':
-		args += ['-k', '6', '-p', 'AT']
+		args += ['-k', '6', '-p', 'at' if qsup == 'list' else 'AT']        # a prefix in lower case is the same prefix
 		pname = 'P0'
 	elif kp == 'explicit17':
-		args += ['-k', '17', '-p', 'AT']          # indices need more than 32 bits
+		args += ['-k', '17', '-p', 'aT']          # indices need more than 32 bits (prefix in mixed case)
 		pname = 'K17'
 	if cores is not None:
 		args += ['-c', str(cores)]
